@@ -3,7 +3,7 @@
 (* against a fixed schema.  Serves C07 (consistency of the parsed URL) and C08  *)
 (* (String() is a canonical form that parses back).                            *)
 (*                                                                             *)
-(* Schema:  ta: attributes x, y; relationships r (to-one -> tb), rs (to-many   *)
+(* Schema:  ta: attributes x, y, X (a name that differs from x by its case only); relationships r (to-one -> tb), rs (to-many   *)
 (*              -> tb)   [r is a string prefix of rs]                          *)
 (*          tb: attribute z;  relationships q (to-one -> ta), s (to-many -> ta) *)
 (*          tc: no field at all                                                *)
@@ -15,7 +15,7 @@
 EXTENDS Integers, Sequences, FiniteSets, TLC, SequencesExt
 
 Types == {"ta", "tb", "tc", "td"}
-AttrsOf(t) == CASE t = "ta" -> {"x", "y"} [] t = "tb" -> {"z"} [] t = "td" -> {"w"} [] OTHER -> {}
+AttrsOf(t) == CASE t = "ta" -> {"x", "y", "X"} [] t = "tb" -> {"z"} [] t = "td" -> {"w"} [] OTHER -> {}
 RelsOf(t)  == CASE t = "ta" -> {"r", "rs", "t"} [] t = "tb" -> {"q", "s"} [] t = "td" -> {"q"} [] OTHER -> {}
 FieldsOf(t) == AttrsOf(t) \cup RelsOf(t)
 \* tb.q and td.q carry the same name and lead to different types: r.q and t.q meet them at the same depth
